@@ -41,7 +41,7 @@ func deepCalls(fn *ssa.Function, depth int, seen map[*ssa.Function]bool) []ssa.C
 func C19(p *ir.Program, r *report.R) {
 	c := C{p, r}
 	r.Floor = 120
-	r.Explain = "Decided (Engler-style sibling cross-check over the matrix backend x method; equivalence with an ordered map over histories is ADDED after seeded-change testing: On-disk batch Write/Commit/WriteSync reach the shard flush loop (or the sibling they delegate to) on every path; iterator positioning tables for goleveldb and bolt (constructor and Seek): forward/nil First, forward/start Seek, reverse/nil Last, reverse/start Seek then Prev when past start and Last when off the end; PrefixToEnd truncates after the incremented byte. NOT decided): every backend / batch / iterator type implements the full DB / Batch / Iterator interface; key and value arguments are normalised with nonNilBytes before they reach the backend primitive, in every backend and method, directly or through the sibling the method delegates to (exemptions with reasons); twin methods inside a backend (Get~Load, Has~Exist, Set~Put~SetSync, Delete~Del~DeleteSync) reach the same primitive; batch atomicity shape: memBatch.write holds the database mutex around the whole loop and applies the operations in slice order; an on-disk batch must hand the whole batch to ONE atomic primitive — the sharded backends issue one write per shard from concurrent goroutines (known findings, relevant when db_counts > 1) and Commit assigns its error result from several goroutines; prefixDB routes every key through prefixed(key) and every batch key through the prefix; the shard of a key is a pure function of the key. NOT decided: iterator order/bounds behaviour, reopen, atomicity on disk."
+	r.Explain = "Decided (Engler-style sibling cross-check over the matrix backend x method; equivalence with an ordered map over histories is ADDED after seeded-change testing: On-disk batch Write/Commit/WriteSync reach the shard flush loop (or the sibling they delegate to) on every path; iterator positioning tables for goleveldb and bolt (constructor and Seek): forward/nil First, forward/start Seek, reverse/nil Last, reverse/start Seek then Prev when past start and Last when off the end; PrefixToEnd truncates after the incremented byte. NOT decided): every backend / batch / iterator type implements the full DB / Batch / Iterator interface; key and value arguments are normalised with nonNilBytes before they reach the backend primitive, in every backend and method, directly or through the sibling the method delegates to (exemptions with reasons); twin methods inside a backend (Get~Load, Has~Exist, Set~Put~SetSync, Delete~Del~DeleteSync) reach the same primitive; batch atomicity shape: memBatch.write holds the database mutex around the whole loop and applies the operations in slice order; an on-disk batch must hand the whole batch to ONE atomic primitive — the sharded backends issue one write per shard from concurrent goroutines (known findings, relevant when db_counts > 1) and Commit assigns its error result from several goroutines; prefixDB routes every key through prefixed(key) and every batch key through the prefix; the shard of a key is a pure function of the key. Rounds 4-5: every batch Reset zeroes its counter; cpDecr returns nil on underflow; no write path sorts the queued operations with an unstable sort; prefixIterator.Next closes the source when it leaves the view; the prefixing rule is name-independent (what reaches the wrapped store is prefix ++ key). NOT decided: iterator order/bounds behaviour, reopen, atomicity on disk."
 	r.Trusted = []string{"goleveldb, boltdb, badger (third-party)", "murmur3"}
 
 	dbI := p.Obj("libs/db", "DB").Type().Underlying().(*types.Interface)
@@ -506,6 +506,60 @@ func C19(p *ir.Program, r *report.R) {
 			}
 		}
 		r.Check("K5", "iterator-source/sites", "-", n >= 6, fmt.Sprintf("%d backend iterator creations inspected (confirmed by hand: 3 + 3)", n))
+	}
+
+	// ---- a batch is applied in the order it was queued --------------------------------------------------------
+	// "set k=1; delete k; set k=2" must end with k=2: the write paths replay the queued operations in
+	// queue order. No write path sorts them (sort.Slice / sort.Sort are not stable: two operations on the
+	// same key may swap) or otherwise permutes the list.
+	{
+		n := 0
+		for _, bt := range []string{"memBatch", "goLevelDBBatch", "boltBatch", "badgerBatch", "prefixBatch"} {
+			for _, m := range []string{"Write", "WriteSync", "Commit", "write"} {
+				fn := p.TryFunc("libs/db", bt+"."+m)
+				if fn == nil {
+					continue
+				}
+				n++
+				var sorts []string
+				ir.InstrsDeep(fn, func(_ *ssa.Function, in ssa.Instruction) {
+					if c, ok := in.(ssa.CallInstruction); ok {
+						if cn := ir.CalleeName(c); strings.HasPrefix(cn, "sort.") && cn != "sort.SliceStable" && cn != "sort.Stable" && !strings.HasPrefix(cn, "sort.Search") {
+							sorts = append(sorts, p.InstrPos(in)+": "+cn)
+						}
+					}
+				})
+				r.Check("K5", "batch-order/db.(*"+bt+")."+m+"/no-reordering", p.Pos(fn.Pos()), len(sorts) == 0, fmt.Sprintf("the queued operations are replayed in queue order, never sorted by an unstable sort: %v", sorts))
+			}
+		}
+		r.Check("K5", "batch-order/sites", "-", n >= 8, fmt.Sprintf("%d batch write paths inspected", n))
+	}
+
+	// ---- a prefixed iterator ends at the border of its view ---------------------------------------------------
+	// prefixIterator has VALUE receivers: `itr.valid = false` in Next changes a copy. What ends the
+	// iteration when the source steps onto a key of the neighbouring view is source.Close() — Valid()
+	// asks the source. Every path of Next that reports false after moving the source closes it.
+	{
+		nx := p.Func("libs/db", "prefixIterator.Next")
+		mv := firstCall(nx, "db.Iterator.Next")
+		okC := mv != nil
+		if mv != nil {
+			found, hit, _ := ir.FindPath(ir.PathQuery{From: ir.At(mv), Target: func(in ssa.Instruction) bool {
+				rt, ok := in.(*ssa.Return)
+				if !ok {
+					return false
+				}
+				for _, x := range ir.Returns(nx) {
+					if x.Instr == rt {
+						return ir.Render(x.Results[0]) == "false"
+					}
+				}
+				return false
+			}, Avoid: ir.CallMatcher("db.Iterator.Close")})
+			okC = !found
+			_ = hit
+		}
+		r.Check("K2", "db.prefixIterator.Next/leaving-the-view-closes-the-source", p.Pos(nx.Pos()), okC, "after moving the source, Next returns false only after source.Close() (the receiver is a copy: its valid flag does not survive the call)")
 	}
 
 	// ---- Reset empties a batch completely --------------------------------------------------------------------
